@@ -101,6 +101,10 @@ def cases(rng, tier):
         if it >= n_main:
             cls, f = "ragged", "col_range"
         p = {"inp": inp, "cls": cls, "f": f, "dtype": rng.choice(["int64", "int64", "int32", "float64", "uint8", "uint64", "int8", "float32"])}
+        if f in ("rows", "col_int", "col_range") and rng.random() < 0.25:
+            # rl[..., cols] / rl[rows, ...] / rl[(rows,)]; a trailing Ellipsis stands for the column range [:], which the property
+            # promises for the ragged variant only
+            p["ell"] = rng.choice(["left", "right", "tuple"] if cls == "ragged" else ["left", "tuple"])
         if inp["kind"] != "intervals" and rng.random() < 0.2:
             p["vmap"] = "big"         # cell classes 1, 2, 3 stand for max, max - 1, 1 of the dtype: products value x run length leave a narrow dtype
         if inp["kind"] == "matrix" and rng.random() < 0.3:
@@ -243,14 +247,20 @@ def run_impl(p):
             if f == "row_int":
                 return {"k": "val", "v": _norm(rl[p["i"]])}
             if f == "rows":
-                return {"k": "val", "v": _norm(rl[ragidx.py_rowsel(p["sel"], 1) if p["sel"]["t"] != "all" else slice(None)])}
+                rs = ragidx.py_rowsel(p["sel"], 1) if p["sel"]["t"] != "all" else slice(None)
+                ell = p.get("ell")      # the same selection spelled with an Ellipsis / as a 1-tuple
+                return {"k": "val", "v": _norm(rl[(rs, Ellipsis)] if ell == "right" else rl[(rs,)] if ell == "tuple" else rl[rs])}
             if f == "element":
                 return {"k": "val", "v": _norm(rl[p["i"], p["j"]])}
             if f == "col_int":
                 j = p["j"] if p.get("jform", "int") == "int" else np.dtype(p["jform"]).type(p["j"])
+                if p["rsel"]["t"] == "all" and p.get("ell") == "left":
+                    return {"k": "val", "v": _norm(rl[..., j])}
                 return {"k": "val", "v": _norm(rl[ragidx.py_rowsel(p["rsel"], 1) if p["rsel"]["t"] != "all" else slice(None), j])}
             if f == "col_range":
                 rs = ragidx.py_rowsel(p["rsel"], 1) if p["rsel"]["t"] != "all" else slice(None)
+                if p["rsel"]["t"] == "all" and p.get("ell") == "left":
+                    return {"k": "val", "v": _norm(rl[..., slice(p["a"], p["b"], p["s"])])}
                 return {"k": "val", "v": _norm(rl[rs, slice(p["a"], p["b"], p["s"])])}
             if f in ("sum", "max", "argmax", "mean"):
                 return {"k": "val", "v": _norm(getattr(rl, f)(axis=-1))}
